@@ -20,6 +20,8 @@ ScOf(j) == [files |-> j.files, sched |-> j.sched,
             deps |-> [i \in 1..Len(j.deps) |-> Range(j.deps[i])],
             never |-> Range(j.never), unknown |-> Range(j.unknown)]
 
+TNone == <<>>          \* no enumerated scenarios: the scenario comes with each trace
+
 VARIABLES tid, l
 tvars == <<vars, tid, l>>
 
